@@ -143,6 +143,15 @@ def run(ctx):
         'ObjectNameMatcher': [(set(), 'obj.type')],
         'ConnectionMatcher': [(set(), "conn.name()"), (set(), "'unknown'")],
     }
+    # conditions (besides the argument kind) under which a value matcher may decline WITHOUT consulting the matcher it wraps
+    GUARDS = {
+        'IntArgValueMatcher': [r'^arg\.value == int\(arg\.value\)$', r'^int\(arg\.value\) == arg\.value$'],
+        'LabelIntArgValueMatcher': [r"^hasattr\(arg, 'labels'\)$", r'^isinstance\(arg\.obj\.type, str\)$', r'^isinstance\(arg\.type, str\)$', r'^<elem\d+ of arg\.labels>'],
+        'ObjectNameMatcher': [r'^obj\.type is None$', r'^obj\.type$'],
+        'ConnectionMatcher': [r'^conn is None$', r'^conn$'],
+        'ArgMatcher': [r'^arg\.name is None$', r'^arg\.name$'],
+        'ObjectIdMatcher': [r'^obj\.generation is None$'],
+    }
     nw = 0
     for cname, table in sorted(WRAP.items()):
         c = repo.cls(M + cname)
@@ -160,6 +169,28 @@ def run(ctx):
                 nw += 1
                 ctx.check(bool(calls), 'C05.4', '%s:consults-wrapped' % cname, f.loc(), '%s cannot match without consulting the matcher it wraps' % cname,
                           '%s.matches returns True without consulting self.wrapped on path %s' % (cname, p.describe()[:160]))
+            if not calls:
+                # declined without consulting: only the argument kind and the documented guards may be the reason
+                role = 'arg' if cname.endswith('ArgValueMatcher') or cname == 'ArgMatcher' else ('obj' if cname.startswith('Object') else 'conn')
+                pk = set()
+                foreign = []
+                for a, v in p.decisions:
+                    t_ = re.sub(r'\b%s\b' % re.escape(par), role, a.text)
+                    mk = re.match(r'^isinstance\(%s, %s(\w+)\)$' % (role, ARG), t_)
+                    if mk:
+                        if v:
+                            pk.add(mk.group(1))
+                        continue
+                    if not any(re.match(g_, t_) for g_ in GUARDS.get(cname, [])):
+                        foreign.append(a.text)
+                documented_kinds = set()
+                for ks, tt in table:
+                    for k in ks:
+                        documented_kinds |= set(k.split('|'))
+                if foreign and len(pk) <= 1 and (pk & documented_kinds or not documented_kinds):
+                    ctx.violation('C05.4', '%s:declines-only-for-documented-reasons' % cname, f.loc(),
+                                  '%s declines an argument of a kind it handles (%s) because of `%s`, without consulting the matcher it wraps: values of that kind are silently never matched'
+                                  % (cname, sorted(pk) or 'any', foreign[0]))
             for e in calls:
                 t = norm(e.args[0]).replace(par, {'arg': 'arg', 'obj': 'obj', 'conn': 'conn'}.get(par, par))
                 t = re.sub(r'\b%s\b' % re.escape(par), 'arg' if cname.endswith('ArgValueMatcher') or cname == 'ArgMatcher' else ('obj' if cname.startswith('Object') else 'conn'), norm(e.args[0]))
@@ -273,20 +304,26 @@ def run(ctx):
     # ---- C05.6 parser role tables ------------------------------------------------------------------------------------------------------
     # brackets: [..] re-enters the list parser with the SAME sub-parser
     nb = 0
-    for f in repo.all_funcs():
-        if f.module is not mm:
-            continue
-        for n in f.body_nodes():
-            if isinstance(n, ast.Call) and isinstance(n.func, ast.Name) and n.func.id == '_parse_matcher_list' and len(n.args) == 2 and f.name != 'parse':
+    f_pml0 = repo.func('matcher._parse_matcher_list')
+    for pname in ('_parse_arg_matcher', '_parse_arg_value_matcher', '_parse_text_matcher', '_parse_obj_matcher'):
+        f = repo.func('matcher.' + pname)
+        par = f.params()[0]
+        for p in paths_of(repo, f, unroll=1):
+            facts = {a_.text: v_ for a_, v_ in p.decisions}
+            opens, closes = facts.get("%s.startswith('[')" % par), facts.get("%s.endswith(']')" % par)
+            calls = [e for e in p.events if e.kind == 'call' and e.ftext == '_parse_matcher_list']
+            if opens is True and closes is True:
                 nb += 1
-                effs = [g.name for g in __import__('sa.rules.common', fromlist=['effective_funcs']).effective_funcs(repo, f)]
-                ctx.check(isinstance(n.args[1], ast.Name) and n.args[1].id in effs, 'C05.6', 'brackets:same-sub-parser:%s' % f.name, f.loc(n),
-                          'a bracketed list inside %s is a list of the same kind of thing' % f.name, 'brackets inside %s are parsed with %s' % (f.name, norm(n.args[1])))
-                tr = n
-                while tr is not None and not isinstance(tr, ast.If):
-                    tr = getattr(tr, '_parent', None)
-                ctx.check(tr is not None and re.match(r"^(\w+)\.startswith\('\['\) and \1\.endswith\('\]'\)$", norm(tr.test)) is not None and re.match(r'^\w+\[1:-1\]$|^\w+$', norm(n.args[0])) is not None,
-                          'C05.6', 'brackets:strip-one-pair:%s' % f.name, f.loc(n), 'exactly the outer pair of brackets is removed')
+                ctx.check(len(calls) == 1, 'C05.6', 'brackets:parsed-as-list:%s' % pname, f.loc(), 'text in brackets is parsed as a list', '%s parses bracketed text with %d list parses' % (pname, len(calls)))
+            elif calls:
+                ctx.check(False, 'C05.6', 'brackets:only-when-bracketed:%s' % pname, f.loc(calls[0].node), '', '%s treats text as a bracketed list although it %s' % (pname, 'does not start with [' if opens is False else 'does not end with ]'))
+            for e in calls:
+                sub = arg_by_name(e, f_pml0, 'sub_parser')
+                txt = arg_by_name(e, f_pml0, 'text')
+                ctx.check(sub is not None and norm(sub) == pname, 'C05.6', 'brackets:same-sub-parser:%s' % pname, f.loc(e.node),
+                          'a bracketed list inside %s is a list of the same kind of thing' % pname, 'brackets inside %s are parsed with %s' % (pname, norm(sub) if sub is not None else '?'))
+                ctx.check(txt is not None and norm(txt) == '%s[1:-1]' % par, 'C05.6', 'brackets:strip-one-pair:%s' % pname, f.loc(e.node), 'exactly the outer pair of brackets is removed',
+                          '%s hands %s to the list parser' % (pname, norm(txt)[:60] if txt is not None else '?'))
     ctx.floor('C05.6', nb, 4, 'bracket recursions of the sub-parsers')
     f_pml = repo.func('matcher._parse_matcher_list')
     n_pml = 0
